@@ -44,6 +44,10 @@ CHECKS = {
    text="Programs generated from up to 10 I/O attempts through every syntactic form (print/printf > and >>, print | cmd, cmd | getline [var], getline [var] < file, system, close and re-open, fflush, file operands), with names computed at run time (concatenation, sprintf, substr, array element, -v variable, ENVIRON, a value read from stdin), special names, attempts in BEGIN/rules/END/functions and guarded by earlier results, run under the 8 flag combinations x custom OpenFile present/absent x OpenFile fault plans in a simulated world that logs every OpenFile call and every process start and snapshots the scratch directory and an empty working directory. Invariants: NoExec => no process started; NoFileWrites => no write open, directory unchanged; NoFileReads => no read open, no file data seen, stdin still usable; the first forbidden attempt ends the run with an error before it completes and nothing follows; with a custom OpenFile every touched file went through it (no stray in the working directory); permitted attempts really touch the world. Sampling, not proof.",
    note="Process starts are observed through the stub shell configured in Config.ShellCommand; writes to '-', /dev/stdout, /dev/stderr are not file attempts (either outcome accepted); stdin availability is not asserted when a child or a second scanner shares standard input.",
    tech="deterministic simulation: generated I/O attempts against a logged simulated world (OpenFile seam, stub shell), invariants over the world log"),
+ "C11": dict(cat="exploration", ref="5.3",
+   text="Programs of a small template language (BEGIN / up to 4 rules with patterns NR==k, FNR==k, $0~/lit/, v==k and ranges / END; bodies of traces, the six getline forms, next, nextfile, exit [n], assignments, the same under if, in loops and inside user functions, BEGIN-time edits of ARGV/ARGC) run over a simulated multi-file world (operand lists mixing files - some empty or without final newline -, '-', empty strings, var=value, missing files; every source delivered under a drawn schedule; default and CSV input mode) and are compared step by step with an executable model of the input cursor (operand cursor, NR/FNR/FILENAME, which getline form sets what, range flags, next/nextfile/exit unwinding through functions, END after exit with the last record, exit status). This samples the template family, not all AWK programs (that would need a reference AWK evaluator, another family).",
+   note="Relaxations: cmd | getline may or may not count in NR; FILENAME for standard input is taken from its first observation; main input on stdin is not combined with getline < \"-\" or with commands that inherit stdin.",
+   tech="deterministic simulation: generated operation histories over a simulated file world vs executable input-cursor model"),
 }
 ORDER = ["C07","C08","C11","C12","C13","C14","C15","C19"]
 checks = []
